@@ -261,6 +261,10 @@ def run(ctx):
     from . import c16
     c16.r162(ctx, repo['writer'], repo['util'])
     c16.r166(ctx, repo['util'])
+    from . import callsigs as _cs
+    _cs.general_rules(ctx, 'R10', ['writer.write_common_metadata', 'writer.make_part_file', 'util.update_custom_metadata',
+                                    'writer.update_file_custom_metadata', 'util.metadata_from_many', 'writer.make_metadata',
+                                    'writer.write_thrift', 'writer.consolidate_categories', 'writer.merge'])
     ctx.exhaustive = True
 
 
